@@ -166,10 +166,41 @@ class World:
             # or of the next turn (outside select); the loop does not sleep in between
             loop.call_at(self.now, cb)
 
+    def post_close_probe(self, conn_id: str, hops: int = 4) -> None:
+        """A few turns after a connection closed (no time may pass in between: every hop is a timer
+        due now), record which library timers are still armed."""
+
+        def hop(n: int) -> None:
+            if n > 0:
+                self.schedule("post", lambda: hop(n - 1))
+                return
+            armed = []
+            for h in self.loop._scheduled:
+                if h._cancelled or isinstance(h._callback, HarnessCallback):
+                    continue
+                name = cb_name(h._callback)
+                if name.startswith("aioesphomeapi.connection") or name.startswith("aioesphomeapi._frame_helper"):
+                    armed.append({"cb": name, "in": round(h._when - self.now, 6)})
+            armed.sort(key=lambda d: (d["cb"], d["in"]))
+            self.rec("post_close_timers", conn=conn_id, timers=armed)
+
+        if self.loop is not None and not self.loop.is_closed():
+            hop(hops)
+
     def alloc_fd(self) -> int:
         fd = self.next_fd
         self.next_fd += 1
         return fd
+
+
+def cb_name(cb: Any) -> str:
+    f = cb
+    for _ in range(4):
+        if hasattr(f, "func"):
+            f = f.func
+    q = getattr(f, "__qualname__", None) or type(f).__name__
+    mod = getattr(f, "__module__", "") or ""
+    return f"{mod}.{q}"
 
 
 class HarnessCallback:
